@@ -21,6 +21,7 @@ from outrank.algorithms.sketches.counting_counters_ordinary import PrimitiveCons
 from outrank.algorithms.sketches.counting_ultiloglog import HyperLogLogWCache
 
 from sim import proc
+from sim.alloc import alloc
 from sim.engines import register
 from sim.refmodel import aggregate, sampler, stats
 
@@ -71,12 +72,16 @@ class _Pbar:
 
 # ------------------------------------------------------------------------------------- C07 sampler
 def _sampler_history(a):
+    clock = FakeClock()
+    alloc.install(a.get('poison'))
     lists = [[tuple(c) for c in lst] for lst in a['lists']]
     model = sampler.SamplerModel()
     problems = []
     binding = 0
     states = set()
     for step, op in enumerate(a['ops']):
+        if op.get('tick'):
+            clock.advance(op['tick'])
         cand = list(lists[op['list']])
         if op.get('perm') is not None:
             random.Random(op['perm']).shuffle(cand)
@@ -115,6 +120,8 @@ def job_sampler(job):
 
 # ------------------------------------------------------------------------------------- C13 statistics
 def _stats_history(a):
+    clock = FakeClock()
+    alloc.install(a.get('poison'))
     header = a['header']
     rows = a['rows']
     cuts = a['cuts']
@@ -134,6 +141,8 @@ def _stats_history(a):
         pos += size
         if not batch:
             continue
+        if a.get('ticks'):
+            clock.advance(a['ticks'][bi % len(a['ticks'])])
         seen += batch
         df = pd.DataFrame(batch, columns=header)
         cov = core_ranking.compute_coverage(df, args)
@@ -232,6 +241,7 @@ def hll_value(kind, i):
 
 def _hll_history(a):
     clock = FakeClock()
+    alloc.install(a.get('poison'))
     sk = HyperLogLogWCache(0.02)
     decoy = HyperLogLogWCache(0.02) if a.get('decoy') else None
     decoy_n = 0
@@ -342,6 +352,8 @@ def job_hll(job):
 
 # ------------------------------------------------------------------------------------- C15 frequency sketches
 def _cms_history(a):
+    clock = FakeClock()
+    alloc.install(a.get('poison'))
     np.random.seed(a['np_seed'])
     sk = CountMinSketch(a['depth'], a['width'])
     decoy = CountMinSketch(a['depth'], a['width']) if a.get('decoy') else None
@@ -381,6 +393,8 @@ def _cms_history(a):
             problems.append({'step': step, 'kind': 'row-sum', 'rows': [int(r) for r in rows], 'total': total})
 
     for step, op in enumerate(a['ops']):
+        if a.get('ticks'):
+            clock.advance(a['ticks'][step % len(a['ticks'])])
         if decoy is not None:
             decoy.add(f'decoy-{step % 7}', 3)
         if op[0] == 'add':
